@@ -57,13 +57,29 @@ def order_certificate(E):
 
 
 def _int_set(name):
+    """clauses on the shipped set, evaluated twice: as imported, and again after other IntegerGroup objects have been
+    constructed on the same (p, q) with other generators (the shipped constants must not depend on the history of the process)"""
+    acc = _int_set_once(name, "")
+    inst, why = T.try_get(name)
+    if inst is not None:
+        grp = T.lib().groups.IntegerGroup
+        R = inst.ref
+        for g2 in (R.mul(R.g, 2), 1, 2, inst.rp.M, R.p - 1):
+            T.observe(lambda: grp(p=R.p, q=R.q, g=g2))
+            acc.n(evaluations=1, transitions=1)
+        acc.merge(_int_set_once(name, "(after-other-constructor-calls)"))
+    return acc
+
+
+def _int_set_once(name, tag):
     acc = Acc()
     inst, why = T.try_get(name)
     if inst is None:
         acc.degrade("%s unavailable: %s" % (name, why))
         return acc
+    name = name + tag
     g = inst.group
-    froz = golden.load()["groups"][name]
+    froz = golden.load()["groups"][inst.name]
     fp, fq, fg = int(froz["p"], 16), int(froz["q"], 16), int(froz["g"], 16)
     p, q = getattr(g, "p", None), getattr(g, "q", None)
     gen = T.observe(lambda: int.from_bytes(g.Base.to_bytes(), "big"))
@@ -86,7 +102,7 @@ def _int_set(name):
 
 def _mns(acc, inst, name):
     R = inst.ref
-    froz = golden.load()["MNS"][name]
+    froz = golden.load()["MNS"][inst.name]
     P = inst.params
     encs = {}
     for k in "MNS":
@@ -206,6 +222,6 @@ def replay(rec):
     if r["set"] == "ParamsEd25519":
         _ed(acc)
     else:
-        acc = _int_set(r["set"])
+        acc = _int_set(r["set"].split("(")[0])
     k = "C18/%s/%s" % (r["set"], r["clause"])
     return acc.viol[k]["records"][0]["observed"] if k in acc.viol else "clause holds"
